@@ -259,7 +259,11 @@ def load_known(prop: str) -> list[dict]:
     if not p.exists():
         return []
     data = json.loads(p.read_text())
-    return [e for e in data.get("findings", []) if e.get("property") == prop]
+    known = [e for e in data.get("findings", []) if e.get("property") == prop]
+    for f in sorted((VERIF / "findings").glob("*.json")):   # per-finding files of builders (merged into known_findings.json by the integrator)
+        e = json.loads(f.read_text())
+        known += [x for x in (e if isinstance(e, list) else [e]) if x.get("property") == prop and (x.get("property"), x.get("id")) not in {(k.get("property"), k.get("id")) for k in known}]
+    return known
 
 
 def write_replay(prop: str, obj: dict) -> str:
